@@ -346,6 +346,9 @@ func c04ScAppend(cfg c04Cfg, appends int, extra int) {
 	// KF-C04-3: a write that starts at an unaligned offset in the block right after the end of an
 	// extent panics (makeslice with a negative length)
 	vp.KnownPanic("KF-C04-3", "ext4/file.go:198")
+	if extra != 0 && vp.Known("KF-C04-3") {
+		vp.Stop("known finding KF-C04-3: unaligned appends panic, not exercised further")
+	}
 	for k := 0; k < appends; k++ {
 		c04WriteAt(fsys, "f", os.O_APPEND|os.O_RDWR, -1, data[pos:pos+bs+extra])
 		pos += bs + extra
